@@ -45,6 +45,25 @@ def gen_history(rng, maxlen=25):
         return dkey()
 
     h = []
+    if rng.random() < 0.3 and n >= 6:
+        # a coherent little type graph first (struct -> fields -> types), so that removals and
+        # version changes later in the history hit dependants and the orphan cascade
+        sb = list(bases)
+        rng.shuffle(sb)
+        st, fs = sb[0], sb[1:3]
+        for f in fs:
+            ty = [rng.choice(PRIMS + SPECIALS), 0] if rng.random() < 0.6 else [rng.choice(sb), cur.get(st, 1)]
+            if ty[0] in DECL and rng.random() < 0.5:
+                h.append({"op": "AddAlias", "k": ty})
+                cur[ty[0]] = ty[1]
+            h.append({"op": "AddField", "k": [f, 1], "ty": ty})
+            cur[f] = 1
+        h.append({"op": "AddStruct", "k": [st, 1], "fields": [[f, 1] for f in fs]})
+        cur[st] = 1
+        if len(sb) > 3 and rng.random() < 0.5:
+            h.append({"op": "AddEnum", "k": [sb[3], 1], "p": rng.choice(PRIMS), "vals": [[x, 1] for x in sb[4:5]]})
+            cur[sb[3]] = 1
+        h = h[:n - 2]
     while len(h) < n:
         r = rng.random()
         if h and r < 0.12:                      # repeat an earlier op (often the last one)
@@ -78,7 +97,13 @@ def gen_history(rng, maxlen=25):
             if rng.random() < 0.6:
                 op["kind"] = rng.choice(EDGE_KINDS[:3])
         else:
-            op = {"op": "RemoveNode", "k": anykey()}
+            if cur and rng.random() < 0.5:      # something that was added (often has dependants)
+                b = rng.choice(sorted(cur))
+                op = {"op": "RemoveNode", "k": dkey(b)}
+            elif rng.random() < 0.4:
+                op = {"op": "RemoveNode", "k": [rng.choice(PRIMS + SPECIALS), 0]}
+            else:
+                op = {"op": "RemoveNode", "k": anykey()}
         h.append(op)
     return h
 
@@ -135,7 +160,7 @@ def edge_rows(rs):
 def coq_obs(o):
     return "Ob %d %s %s %s %s %s %s %s %s %s" % (
         min(o["err"], 2), coq_bool(sane(o)),
-        coq_list(["(%d,%d,%d,%d)" % tuple(x) for x in o["nodes"]]),
+        coq_list(["(%d,%d,%d,%d)" % (x[0], x[1], x[2], x[3] + 1 if x[3] else 0) for x in o["nodes"]]),
         edge_rows(o["edges"]), rows(o["ch"]), rows(o["pa"]), rows(o["de"]), rows(o["fbk"]),
         coq_list(["(%d,%d,%d)" % tuple(x) for x in o["deps"]]),
         coq_list(["(%d,%d,%d)" % tuple(x) for x in o["rev"]]))
@@ -265,6 +290,34 @@ def classify(h, impl, findings):
 
 # ---------------------------------------------------------------- main
 
+CLAUSES = ["harness consistency flags (version-independent key queries, Exists = (Get != nil), kind-filtered GetEdges, "
+           "sorted traversals, identical answers on re-execution, no panic)",
+           "out/in agreement: every edge listed by GetEdges of some node is listed by both its source and its target",
+           "query answers (Get/Exists, GetEdges, Children, Parents, Descendants, FindByKind) equal the "
+           "set-of-nodes/set-of-edges model",
+           "op-specific clause (RemoveNode removes the node and every touching edge / a (re-)added node is present "
+           "under the version given / re-inserting an existing node or edge changes nothing)"]
+
+
+def diagnose(h, impl_h):
+    """Which clause of prop_C17 fails first, and the plain model's state at that step."""
+    import re
+    body = HEADER + "Definition the_case : case := (0%%nat,\n  %s,\n  %s).\n" % (
+        coq_list([coq_op(o) for o in h]), coq_list([coq_obs(o) for o in impl_h])) + \
+        "Definition d := Eval vm_compute in (let '(_, h, os) := the_case in diag_C17 U KS h os).\nPrint d.\n"
+    try:
+        out = run_coq_file(PROP, "diag", body)
+    except Exception as ex:  # noqa
+        return None
+    m = re.search(r"Some\s*\(\s*(\d+)(?:%nat)?\s*,\s*\[([^\]]*)\]\s*,(.*)\)\s*:\s*option", out, re.S)
+    if not m:
+        return None
+    flags = [x.strip() == "true" for x in m.group(2).split(";") if x.strip()]
+    failed = [CLAUSES[i] for i, f in enumerate(flags) if not f]
+    return {"step": int(m.group(1)), "failed_clauses": failed,
+            "plain_model_state_at_that_step": " ".join(m.group(3).split())}
+
+
 def first_bad_step(h, impl_h):
     """index of the first step at which the observation looks inconsistent (for the replay text)"""
     for i, o in enumerate(impl_h):
@@ -301,13 +354,54 @@ def main():
     for _ in range(n):
         cases.append(gen_history(rng))
 
-    impl, disagree, dumpdis, propfail, dump_ok = evaluate(cases, reps=2 if a.tier == "quick" else 3)
+    try:
+        impl, disagree, dumpdis, propfail, dump_ok = evaluate(cases, reps=2 if a.tier == "quick" else 3)
+    except RuntimeError as ex:
+        if "implrun graph failed" not in str(ex):
+            raise
+        # the harness process died (fatal Go error: stack overflow, concurrent map write, ...):
+        # find a history that kills it and minimise it
+        def dies(h):
+            try:
+                implrun("graph", {"reps": 1, "histories": [h]}, timeout=120)
+                return False
+            except Exception:  # noqa
+                return True
+        bad = next((h for h in cases if dies(h)), None)
+        if bad is None:
+            raise
+        cur = list(bad)
+        changed = True
+        while changed and len(cur) > 1:
+            changed = False
+            for k in range(len(cur)):
+                cand = cur[:k] + cur[k + 1:]
+                if dies(cand):
+                    cur, changed = cand, True
+                    break
+        res.violation({"kind": "property-fails-on-implementation", "input": cur,
+                       "claim": "every op and query terminates normally (the harness process died)",
+                       "what": str(ex)[-1500:]})
+        res.coverage.update({"evaluations": len(cases), "distinct_nontrivial": 0, "rule": "see pygen/c17.py",
+                             "samples": [], "input_distribution": {}})
+        sys.exit(res.finish())
 
     reported = 0
     seen_small = set()
+    known_examples = {}
+    budget = [6 if a.tier == "quick" else 12]     # histories to shrink and classify
+
+    def suspicion(i):
+        """failing histories that cannot be explained by a listed finding come first, short ones first"""
+        explained = any(m(cases[i], impl[i]) for m in
+                        [MATCHERS.get((f.get("match") or {}).get("kind")) for f in findings] if m)
+        return (explained, len(cases[i]))
 
     def report(i, which, kind, claim):
         nonlocal reported
+        if budget[0] <= 0:
+            return
+        budget[0] -= 1
         small = shrink(cases[i], which)
         keyj = json.dumps(small, sort_keys=True)
         if keyj in seen_small:
@@ -317,23 +411,29 @@ def main():
         f = classify(small, o, findings)
         step, what = first_bad_step(small, o)
         if f is not None:
-            res.known(f, "%s (history of %d ops, e.g. %s)" % (f.get("title", ""), len(small), json.dumps(small)))
+            known_examples.setdefault(f.get("id"), []).append(small)
+            res.known(f, f.get("title", ""))
             return
+        dg = diagnose(small, o)
+        if dg:
+            step = dg["step"]
+            what = "after op %d (%s): fails %s" % (step, json.dumps(small[step]), "; ".join(dg["failed_clauses"]))
         rep = {"kind": kind, "input": small, "implementation_output": o, "claim": claim,
-               "first_inconsistent_step": step, "what": what}
+               "first_inconsistent_step": step, "what": what, "diagnosis": dg}
         if kind == "correspondence":
             rep["obligation"] = "corr:Graph.step/observe"
         res.violation(rep, no_input=(kind == "correspondence"))
         reported += 1
 
-    for i in propfail[:12]:
-        if reported >= 3:
+    for i in sorted(propfail, key=suspicion):
+        if reported >= 3 or budget[0] <= 0:
             break
         report(i, 3, "property-fails-on-implementation",
                "prop_C17: out/in agreement of GetEdges, every query equals the set-of-nodes/set-of-edges "
                "model, removal removes the node and all touching edges, re-insertion changes nothing")
     only_dis = [i for i in disagree + dumpdis if i not in propfail]
     if not res.violations and only_dis:
+        budget[0] = max(budget[0], 2)
         # the model no longer describes the code (or only the hidden indices differ): look harder
         extra = [gen_history(rng) for _ in range(1500)]
         _, _, _, pf2, _ = evaluate(extra, "widen")
@@ -345,6 +445,7 @@ def main():
                 report(i, 3, "property-fails-on-implementation", "prop_C17 (found after widening the search)")
             cases[:] = cases_backup
         if not res.violations:
+            budget[0] = max(budget[0], 2)
             for i in only_dis[:6]:
                 if reported >= 1:
                     break
@@ -396,6 +497,7 @@ def main():
         "traces_validated_against_impl": len(cases) - len(set(disagree)),
         "disagreements": len(disagree), "dump_disagreements": len(dumpdis),
         "property_oracle_failures": len(propfail), "adjacency_dump_available": dump_ok,
+        "known_finding_examples": {k: v[:2] for k, v in known_examples.items()},
         "input_distribution": {
             "history_lengths": lengths, "op_mix": opmix, "immediate_repeats": repeats,
             "steps_hitting_orphan_cascade_or_eviction": cascade, "steps_replacing_a_node_version": replaced,
